@@ -94,6 +94,14 @@ func init() {
 			res = append(res, uuBack(r, err))
 		}
 		e["back"] = res
+		// one read buffer: this record, then refilled with another id of the same length (last bit flipped)
+		own := func(x uu.ID) string {
+			return fmt.Sprintf("%08x-%04x-%04x-%04x-%012x", x.Higher>>32, (x.Higher>>16)&0xffff, x.Higher&0xffff, x.Lower>>48, x.Lower&0xffffffffffff)
+		}
+		id2 := uu.ID{Higher: id.Higher, Lower: id.Lower ^ 1}
+		first := uuBack(uu.DefaultParser(reused([]byte(own(id))), 0))
+		second := uuBack(uu.DefaultParser(reused([]byte(own(id2))), 0))
+		e["reuse"], e["sibtext"] = [][]int{first, second}, own(id2)
 		return e
 	}
 	ops["uu.parse"] = func(e Ev) Ev {
